@@ -900,11 +900,11 @@ def readspec(platein, mjd=None, fiber=None, **kwargs):
         if nplate > 1:
             platevec = np.array(plate, dtype='i4')
         else:
-            platevec = np.zeros(nfiber, dtype='i4') + plate
+            platevec = np.zeros(nfiber, dtype='i4') + np.array(plate, dtype='i4')
         if nfiber > 1:
             fibervec = np.array(fiber, dtype='i4')
         else:
-            fibervec = np.zeros(nplate, dtype='i4') + fiber
+            fibervec = np.zeros(nplate, dtype='i4') + np.array(fiber, dtype='i4')
     if mjd is None:
         mjdvec = latest_mjd(platevec, **kwargs)
     else:
@@ -914,7 +914,7 @@ def readspec(platein, mjd=None, fiber=None, **kwargs):
             nmjd = 1
         if nmjd != nplate:
             raise TypeError("Plate & MJD must have the same length!")
-        mjdvec = np.zeros(nplate, dtype='i4') + mjd
+        mjdvec = np.zeros(nplate, dtype='i4') + np.array(mjd, dtype='i4')
     #
     # Now select unique plate-mjd combinations & read them
     #
